@@ -57,10 +57,21 @@ def sweep_property(run, tier, seed, pid, extra_dags=(), describe=''):
             run.violation(dict(n=n, arcs=a, edges=names(a), why=why, replay_cmd=f'./check {pid} --replay <this file>'), note=why)
             found = True
     if diverging and not found:
-        i = diverging[0]
-        n, a = dags[i]
-        mt = D.model_tokens(k, n, a)
-        run.coverage['first_divergence'] = dict(n=n, arcs=a, edges=names(a), model_tokens=mt[:80])
+        # search: explain the divergence on a concrete DAG with the textbook definition (smallest diverging DAGs first)
+        from .refdefs import REFERENCE
+        ref = REFERENCE.get(pid)
+        for i in sorted(diverging, key=lambda i: (dags[i][0], len(dags[i][1])))[:40]:
+            n, a = dags[i]
+            why = ref(n, a) if ref else None
+            if why:
+                run.violation(dict(n=n, arcs=a, edges=names(a), why=why, replay_cmd=f'./check {pid} --replay <this file>'), note=why[:200])
+                found = True
+                break
+        if not found:
+            i = diverging[0]
+            n, a = dags[i]
+            mt = D.model_tokens(k, n, a)
+            run.coverage['first_divergence'] = dict(n=n, arcs=a, edges=names(a), model_tokens=mt[:80])
     return dags, out, impl, diverging
 
 
@@ -76,4 +87,10 @@ def replay_dag(run, path, pid):
     for pos, why in PRED[pid]:
         if r[pos] != 1:
             run.violation(dict(c, why=why), note=why)
+    from .refdefs import REFERENCE
+    if pid in REFERENCE and not run.violations:
+        why = REFERENCE[pid](*dags[0])
+        print('reference definition check:', why)
+        if why:
+            run.violation(dict(c, why=why), note=why[:200])
     return r
